@@ -19,7 +19,10 @@ Python → model
 * `remove_node` / `remove_dead_instances` / `add_node` / `ensure_wrapped_instance` / `add_relation` /
   `relation_exists` / `get_instances_of_type` / `clear` → `removeNode` / `sweep` / `addNode` / `ensure` /
   `addEdge` / `relationExists` / `instancesOf` / `SG.empty`;
-* `PropertyDescriptorRelation.add_to_graph` (super-properties, inverse, transitive; no role takers) → `addFact`;
+* `PropertyDescriptorRelation.add_to_graph` (super-properties on the source AND on its role taker, inverse on the
+  target or on its role taker, transitive) → `addFact`; a `Role[T]` instance holds its role taker in a plain field
+  (`Schema.takerFld`, a strong reference in `Heap.fields`): `Heap.takerOf`; `ensure_wrapped_instance(role_taker)` in
+  the middle of the inference → `ensureSt`;
 * the user's references, descriptor-managed field contents (strong references), query variables with their
   cached domains (`Variable._domain_.values`) and the process-wide expression table → `Heap`; `gc.collect()` after a
   dropped reference → `Heap.collect` (reachability from the roots).
@@ -89,6 +92,15 @@ structure Schema where
   desc : Fld → Nat
   /-- bound on the inference recursion -/
   fuel : Nat
+  /-- `class_diagram.get_role_taker_associations_of_cls(cls)`: the plain field of a `Role[T]` class that holds the role
+  taker (`association.field`); `none`: the class is no role -/
+  takerFld : Cls → Option Fld := fun _ => none
+  /-- `role_taker_fields` = `property_descriptor_cls.get_fields_of_superproperties(association.target)` for a relation
+  of field `f` whose source is of the (role) class: the fields OF THE ROLE-TAKER TYPE managed by super-properties -/
+  takerSupers : Fld → Cls → List Fld := fun _ _ => []
+  /-- `inverse_field_from_target_role_taker` for a relation of field `f` whose target is of the (role) class: the field
+  of the role-taker type managed by the inverse descriptor (consulted only when the target type itself has none) -/
+  takerInverse : Fld → Cls → Option Fld := fun _ _ => none
 
 /-- `recursive_subclasses` (krrood/utils.py): direct subclasses, then theirs — a class reachable along two
 inheritance paths appears twice -/
@@ -263,6 +275,17 @@ def Heap.empty : Heap := ⟨[], [], [], [], [], [], [], 0⟩
 def Heap.find (h : Heap) (o : Obj) : Option HObj := h.live.find? (fun x => x.obj == o)
 def Heap.isLive (h : Heap) (o : Obj) : Bool := h.live.any (fun x => x.obj == o)
 
+/-- `getattr(role, association.field.public_name)` for an instance `o` of class `c`: the instance its role-taker field
+refers to (`none`: `c` is no role class, or the field was never assigned — the constructor of the harness's role class
+always assigns it, `Op.newrole`) -/
+def Heap.takerOf (S : Schema) (h : Heap) (o : Obj) (c : Cls) : Option HObj :=
+  match S.takerFld c with
+  | none => none
+  | some tf =>
+    match h.fields.find? (fun e => e.owner == o && e.fld == tf) with
+    | none => none
+    | some e => h.find e.val
+
 /-- strong roots: user references and the cached domains of query objects that are still referenced — by the
 user, or (quirk) by the expression table -/
 def Heap.roots (q : Quirks) (h : Heap) : List Obj :=
@@ -357,6 +380,10 @@ inductive Op where
   | evalq (k : Nat)
   /-- the user drops `q_k` (and its results) -/
   | dropq (k : Nat)
+  /-- `C(..., taker=e)` for a role class `C` (`Role[T]`): a new instance, labelled `o`, that holds the live instance `e`
+  in its role-taker field (a strong reference; `Symbol.__new__` registers the instance before `__init__` assigns the
+  field); the user keeps a reference to the role -/
+  | newrole (o : Obj) (c : Cls) (pid : Nat) (e : Obj)
   deriving DecidableEq, Repr
 
 /-- `ensure_wrapped_instance(instance)` -/
@@ -365,15 +392,49 @@ def ensure {σ} (a : Alloc σ) (g : SG σ) (x : HObj) : SG σ × W :=
   | some w => (g, w)
   | none => addNode a g x.obj x.cls x.pid
 
-/-- `infer_super_relations`; `rec` is `add_to_graph` of an inferred relation -/
-def inferSupers {σ} (S : Schema) (rec : St σ → Fld → W → W → St σ) (st : St σ) (f : Fld) (ws wt : W) : St σ :=
-  (S.supers f ws.cls).foldl (fun st f' => rec st f' ws wt) st
+/-- `SymbolGraph().ensure_wrapped_instance(x)` in the middle of a history or of an inference -/
+def ensureSt {σ} (a : Alloc σ) (st : St σ) (x : HObj) : St σ × W :=
+  let p := ensure a st.g x
+  ({ st with g := p.1, h := st.h.register x.obj }, p.2)
 
-/-- `infer_inverse_relation` -/
-def inferInverse {σ} (S : Schema) (rec : St σ → Fld → W → W → St σ) (st : St σ) (f : Fld) (ws wt : W) : St σ :=
+/-- `role_taker_super_relations`: when the source's class has a role-taker association and the role-taker TYPE has
+fields managed by super-properties, the role taker is read from the source (`getattr`), wrapped
+(`ensure_wrapped_instance`: a node is added NOW if the registry does not know it, e.g. after `clear()`), and the relation
+is inferred for each of those fields with the role taker as its source. The generator is consumed after the direct
+super-relations were inferred, so an exception raised there leaves the role taker alone. -/
+def inferTakerSupers {σ} (S : Schema) (a : Alloc σ) (rec : St σ → Fld → W → W → St σ) (st : St σ) (f : Fld)
+    (ws wt : W) : St σ :=
+  if st.err || (S.takerSupers f ws.cls).isEmpty then st
+  else
+    match st.h.takerOf S ws.obj ws.cls with
+    | none => st
+    | some x =>
+      let p := ensureSt a st x
+      (S.takerSupers f ws.cls).foldl (fun st f' => rec st f' p.2 wt) p.1
+
+/-- `infer_super_relations` (`super_relations` = `direct_super_relations`, then `role_taker_super_relations`); `rec` is
+`add_to_graph` of an inferred relation -/
+def inferSupers {σ} (S : Schema) (a : Alloc σ) (rec : St σ → Fld → W → W → St σ) (st : St σ) (f : Fld)
+    (ws wt : W) : St σ :=
+  inferTakerSupers S a rec ((S.supers f ws.cls).foldl (fun st f' => rec st f' ws wt) st) f ws wt
+
+/-- `infer_inverse_relation` with `inverse_domain_and_field`: the inverse field on the target; if the target's type has
+none, the inverse field on the target's role taker (read from the target, wrapped on the spot) -/
+def inferInverse {σ} (S : Schema) (a : Alloc σ) (rec : St σ → Fld → W → W → St σ) (st : St σ) (f : Fld)
+    (ws wt : W) : St σ :=
   match S.inverse f wt.cls with
   | some f' => rec st f' wt ws
-  | none => st
+  | none =>
+    match S.takerInverse f wt.cls with
+    | none => st
+    | some f' =>
+      if st.err then st
+      else
+        match st.h.takerOf S wt.obj wt.cls with
+        | none => st
+        | some x =>
+          let p := ensureSt a st x
+          rec p.1 f' p.2 ws
 
 /-- the transitive inference meets an edge whose other end is dead and not yet swept: the inferred relation is
 looked up by indices (`add_relation`), and when it is new `update_value(None, …)` raises (quirk); repaired: skipped -/
@@ -408,15 +469,15 @@ def known {σ} (st : St σ) (f : Fld) (ws wt : W) : St σ :=
   { st with staleHit := st.staleHit || !edgeExists st.g f ws wt }
 
 /-- `PropertyDescriptorRelation.add_to_graph()` for a relation whose two ends are live wrappers -/
-def addFact {σ} (q : Quirks) (S : Schema) : Nat → St σ → Fld → W → W → Bool → St σ
+def addFact {σ} (q : Quirks) (S : Schema) (a : Alloc σ) : Nat → St σ → Fld → W → W → Bool → St σ
   | 0, st, _, _, _, _ => st
   | fuel + 1, st, f, ws, wt, inf =>
     if st.err then st
     else if relationExists st.g f ws wt then known st f ws wt
     else
-      inferTransitive q S (fun st f ws wt => addFact q S fuel st f ws wt true)
-        (inferInverse S (fun st f ws wt => addFact q S fuel st f ws wt true)
-          (inferSupers S (fun st f ws wt => addFact q S fuel st f ws wt true) (record S st f ws wt inf) f ws wt)
+      inferTransitive q S (fun st f ws wt => addFact q S a fuel st f ws wt true)
+        (inferInverse S a (fun st f ws wt => addFact q S a fuel st f ws wt true)
+          (inferSupers S a (fun st f ws wt => addFact q S a fuel st f ws wt true) (record S st f ws wt inf) f ws wt)
           f ws wt)
         f ws wt
 
@@ -460,12 +521,12 @@ def step {σ} (q : Quirks) (S : Schema) (a : Alloc σ) (st : St σ) (op : Op) : 
         -- `setattr(obj, private, value)`, then the relation; the value that was overwritten may now be garbage
         let st := { st with h := st.h.write S f s t }
         let (st, ws, wt) := ensure2 a st xs xt
-        let st := addFact q S S.fuel st f ws wt false
+        let st := addFact q S a S.fuel st f ws wt false
         { st with h := st.h.collect q }
       | _ =>
         -- `_on_add` (relation first), then the item goes into the container — unless the relation raised
         let (st, ws, wt) := ensure2 a st xs xt
-        let st := addFact q S S.fuel st f ws wt false
+        let st := addFact q S a S.fuel st f ws wt false
         if st.err then st else { st with h := st.h.write S f s t }
     | _, _ => st
   | .mkq k c dom =>
@@ -487,6 +548,16 @@ def step {σ} (q : Quirks) (S : Schema) (a : Alloc σ) (st : St σ) (op : Op) : 
     | none => st
     | some v =>
       if !v.held then st else { st with h := (st.h.dropQuery q k).collect q }
+  | .newrole o c pid e =>
+    if st.h.used.contains o || st.h.live.any (fun x => x.pid == pid) || !st.h.isLive e then st
+    else
+      let p := addNode a st.g o c pid
+      { st with g := p.1,
+                h := { st.h with live := st.h.live ++ [⟨o, c, pid⟩], used := st.h.used ++ [o],
+                                 held := st.h.held ++ [o], epoch := st.h.epoch ++ [o],
+                                 fields := match S.takerFld c with
+                                           | some tf => st.h.fields ++ [⟨o, tf, e⟩]
+                                           | none => st.h.fields } }
 
 def run {σ} (q : Quirks) (S : Schema) (a : Alloc σ) (ops : List Op) : St σ :=
   ops.foldl (step q S a) (St.init a)
@@ -519,58 +590,63 @@ def Edge.toA (e : Edge) : AEdge := ⟨e.fld, e.src.toR, e.tgt.toR, e.inferred⟩
 def Spec.exists_ (s : Spec) (f : Fld) (a b : R) : Bool :=
   s.edges.any (fun e => e.fld == f && e.src == a && e.tgt == b)
 
-/-- what the inference reads and writes at the level of objects: field contents and relations -/
-structure RelSt where
-  fields : List FEntry
-  edges : List AEdge
+def Spec.ensure (s : Spec) (x : HObj) : Spec :=
+  { s with reg := if s.reg.any (fun r => r.obj == x.obj) then s.reg else s.reg ++ [⟨x.obj, x.cls⟩],
+           h := s.h.register x.obj }
 
-def RelSt.exists_ (s : RelSt) (f : Fld) (a b : R) : Bool :=
-  s.edges.any (fun e => e.fld == f && e.src == a && e.tgt == b)
-
-def RelSt.record (S : Schema) (s : RelSt) (f : Fld) (a b : R) (inf : Bool) : RelSt :=
-  if inf then { edges := s.edges ++ [⟨f, a, b, inf⟩], fields := updateFields S s.fields f a.obj b.obj }
+/-- a new relation: an edge; an inferred one also updates the field of its source -/
+def Spec.record (S : Schema) (s : Spec) (f : Fld) (a b : R) (inf : Bool) : Spec :=
+  if inf then { s with edges := s.edges ++ [⟨f, a, b, inf⟩], h := s.h.updateValue S f a.obj b.obj }
   else { s with edges := s.edges ++ [⟨f, a, b, inf⟩] }
 
-def RelSt.inferSupers (S : Schema) (rec : RelSt → Fld → R → R → RelSt) (s : RelSt) (f : Fld) (a b : R) : RelSt :=
-  (S.supers f a.cls).foldl (fun s f' => rec s f' a b) s
+/-- the super-properties on the role taker of the source: the role taker becomes known to the registry -/
+def Spec.inferTakerSupers (S : Schema) (rec : Spec → Fld → R → R → Spec) (s : Spec) (f : Fld) (a b : R) : Spec :=
+  if (S.takerSupers f a.cls).isEmpty then s
+  else
+    match s.h.takerOf S a.obj a.cls with
+    | none => s
+    | some x => (S.takerSupers f a.cls).foldl (fun s f' => rec s f' ⟨x.obj, x.cls⟩ b) (s.ensure x)
 
-def RelSt.inferInverse (S : Schema) (rec : RelSt → Fld → R → R → RelSt) (s : RelSt) (f : Fld) (a b : R) : RelSt :=
+def Spec.inferSupers (S : Schema) (rec : Spec → Fld → R → R → Spec) (s : Spec) (f : Fld) (a b : R) : Spec :=
+  Spec.inferTakerSupers S rec ((S.supers f a.cls).foldl (fun s f' => rec s f' a b) s) f a b
+
+def Spec.inferInverse (S : Schema) (rec : Spec → Fld → R → R → Spec) (s : Spec) (f : Fld) (a b : R) : Spec :=
   match S.inverse f b.cls with
   | some f' => rec s f' b a
-  | none => s
+  | none =>
+    match S.takerInverse f b.cls with
+    | none => s
+    | some f' =>
+      match s.h.takerOf S b.obj b.cls with
+      | none => s
+      | some x => rec (s.ensure x) f' ⟨x.obj, x.cls⟩ a
 
-def RelSt.inferOut (S : Schema) (rec : RelSt → Fld → R → R → RelSt) (s : RelSt) (f : Fld) (a b : R) : RelSt :=
+def Spec.inferOut (S : Schema) (rec : Spec → Fld → R → R → Spec) (s : Spec) (f : Fld) (a b : R) : Spec :=
   ((s.edges.filter (fun e => e.src == b && S.desc e.fld == S.desc f)).reverse).foldl
     (fun s e => rec s e.fld a e.tgt) s
 
-def RelSt.inferIn (S : Schema) (rec : RelSt → Fld → R → R → RelSt) (s : RelSt) (f : Fld) (a b : R) : RelSt :=
+def Spec.inferIn (S : Schema) (rec : Spec → Fld → R → R → Spec) (s : Spec) (f : Fld) (a b : R) : Spec :=
   ((s.edges.filter (fun e => e.tgt == a && S.desc e.fld == S.desc f)).reverse).foldl
     (fun s e => rec s e.fld e.src b) s
 
-def RelSt.inferTransitive (S : Schema) (rec : RelSt → Fld → R → R → RelSt) (s : RelSt) (f : Fld) (a b : R) :
-    RelSt :=
-  if S.transitive f then RelSt.inferIn S rec (RelSt.inferOut S rec s f a b) f a b else s
+def Spec.inferTransitive (S : Schema) (rec : Spec → Fld → R → R → Spec) (s : Spec) (f : Fld) (a b : R) : Spec :=
+  if S.transitive f then Spec.inferIn S rec (Spec.inferOut S rec s f a b) f a b else s
 
-/-- the same inference over objects: every relation is known by its two ends, nothing else -/
-def specAddFact (S : Schema) : Nat → RelSt → Fld → R → R → Bool → RelSt
+/-- the same inference over objects: every relation is known by its two ends, nothing else; an instance the
+inference reaches through a role (the role taker) becomes known to the registry at that moment -/
+def specAddFact (S : Schema) : Nat → Spec → Fld → R → R → Bool → Spec
   | 0, s, _, _, _, _ => s
   | fuel + 1, s, f, a, b, inf =>
     if s.exists_ f a b then s
     else
-      RelSt.inferTransitive S (fun s f a b => specAddFact S fuel s f a b true)
-        (RelSt.inferInverse S (fun s f a b => specAddFact S fuel s f a b true)
-          (RelSt.inferSupers S (fun s f a b => specAddFact S fuel s f a b true) (s.record S f a b inf) f a b)
+      Spec.inferTransitive S (fun s f a b => specAddFact S fuel s f a b true)
+        (Spec.inferInverse S (fun s f a b => specAddFact S fuel s f a b true)
+          (Spec.inferSupers S (fun s f a b => specAddFact S fuel s f a b true) (s.record S f a b inf) f a b)
           f a b)
         f a b
 
 /-- assert a relation (with its inferences) in a specification state -/
-def Spec.assert (S : Schema) (s : Spec) (f : Fld) (a b : R) : Spec :=
-  let r := specAddFact S S.fuel ⟨s.h.fields, s.edges⟩ f a b false
-  { s with h := { s.h with fields := r.fields }, edges := r.edges }
-
-def Spec.ensure (s : Spec) (x : HObj) : Spec :=
-  { s with reg := if s.reg.any (fun r => r.obj == x.obj) then s.reg else s.reg ++ [⟨x.obj, x.cls⟩],
-           h := s.h.register x.obj }
+def Spec.assert (S : Schema) (s : Spec) (f : Fld) (a b : R) : Spec := specAddFact S S.fuel s f a b false
 
 /-- the live instances of `T` and of its subclasses known to the registry — what C13 demands of a query -/
 def Spec.census (q : Quirks) (S : Schema) (s : Spec) (T : Cls) : List Obj :=
@@ -638,6 +714,15 @@ def specStep (q : Quirks) (S : Schema) (s : Spec) (op : Op) : Spec :=
     | none => s
     | some v =>
       if !v.held then s else ({ s with h := (s.h.dropQuery q k).collect q }).prune
+  | .newrole o c pid e =>
+    if s.h.used.contains o || s.h.live.any (fun x => x.pid == pid) || !s.h.isLive e then s
+    else
+      { s with reg := s.reg ++ [⟨o, c⟩],
+               h := { s.h with live := s.h.live ++ [⟨o, c, pid⟩], used := s.h.used ++ [o],
+                               held := s.h.held ++ [o], epoch := s.h.epoch ++ [o],
+                               fields := match S.takerFld c with
+                                         | some tf => s.h.fields ++ [⟨o, tf, e⟩]
+                                         | none => s.h.fields } }
 
 def specRun (q : Quirks) (S : Schema) (ops : List Op) : Spec := ops.foldl (specStep q S) Spec.init
 
